@@ -259,6 +259,11 @@ class Recorder:
             dis = sorted(c.code for c in self.options.disabled_error_codes)
             en = sorted(c.code for c in self.options.enabled_error_codes)
             has_ign = f in self.ignored_lines      # `if file in self.ignored_lines:` at the time of the report
+            watch = bool(self._watchers)           # an ErrorWatcher is active: _add_error_info asks it again, also for the note
+            if not isinstance(info.origin_span, (list, tuple)):
+                # messages.py passes an itertools.chain: a one-shot iterator.  Replace it by the equal list so that it can
+                # be observed here without consuming it (add_error_info iterates it once either way).
+                info.origin_span = list(info.origin_span)
             try:
                 orig_add(self, info, file=file)
             finally:
@@ -268,6 +273,7 @@ class Recorder:
                 d = rec.snap_info(info, f)
                 d["dis"], d["en"] = dis, en
                 d["has_ign"] = has_ign
+                d["watch"] = watch
                 d["eobj"] = id(self)       # throw-away Errors objects (speculative analysis) are not the build's
                 rec.stream.append(d)
 
@@ -454,6 +460,18 @@ def disabled_leaks(run: dict) -> dict[str, list[tuple]]:
     return res
 
 
+COVER = re.compile(r'^(Error code "[^"]*" not covered by "type: ignore\[|Error code changed to )')
+
+
+def drop_cover(maps: dict[str, list[tuple]], run: dict) -> dict[str, list[tuple]]:
+    """ErrorWatchers are not modelled: while one is active, _add_error_info consults it a second time and the
+    "not covered" note (code None) may be filtered, collected and re-added later, or dropped.  In files where some info
+    was added under an active watcher the notes are therefore left out of the comparison (they are tied in C)."""
+    files = {i["file"] for i in run["stream"] if i.get("watch")}
+    return {f: ([c for c in v if not (c[1] is None and c[2] == "note" and COVER.match(c[3]))] if f in files else v)
+            for f, v in maps.items()}
+
+
 def exit_oracle(run: dict) -> tuple[int, bool]:
     has_error = any(i["error"] and not i["hidden"] for infos in run["maps"].values() for i in infos)
     return (2 if run["blockers"] else (1 if has_error else 0)), has_error
@@ -491,6 +509,9 @@ def worker_case(rec: Recorder, job: dict, exit_obj: Any, sub_map: dict[str, list
             res["skipped"] = "base run raised " + type(e).__name__
             return res
         check_exit(A, "base")
+        if any(i["hidden"] or i["msg"].startswith("(Skipping most remaining errors") for v in A["maps"].values() for i in v):
+            res["skipped"] = "many-errors limiter triggered (modelled and tied in C; S does not recompute it)"
+            return res
         if len(A["stream"]) >= 150:
             res["skipped"] = "too many messages (many_errors_threshold region not modelled)"
             return res
@@ -498,6 +519,7 @@ def worker_case(rec: Recorder, job: dict, exit_obj: Any, sub_map: dict[str, list
         # self-consistency of the base run: actual map = spec(own cfg, own stream)
         repA, genA = actual_maps(A)
         expA, expgA = expected_maps(A, A["stream"], cfgs_of(A), sub_map)
+        repA, expA = drop_cover(repA, A), drop_cover(expA, A)
         if repA != expA or genA != expgA:
             res["problems"].append({"kind": "inexact-own-stream", "label": "base", "actual": diff_maps(repA, expA), "gen": [genA, expgA]})
             return res
@@ -565,6 +587,7 @@ def worker_case(rec: Recorder, job: dict, exit_obj: Any, sub_map: dict[str, list
             streamA = [dict(i, dis=i["dis"], en=i["en"]) for i in A["stream"]]
             expB, expgB = expected_maps(B, streamA, cfX, sub_map)
             repB, genB = actual_maps(B)
+            repB, expB = drop_cover(repB, B), drop_cover(expB, B)
             nsup = sum(len(v) for v in repA.values()) - sum(len(v) for v in repB.values())
             res["kinds"][kind] = res["kinds"].get(kind, 0) + 1
             if nsup > 0:
@@ -572,7 +595,14 @@ def worker_case(rec: Recorder, job: dict, exit_obj: Any, sub_map: dict[str, list
                 res["suppressed"] += nsup
             if repB != expB or genB != expgB:
                 ownB, owngB = expected_maps(B, B["stream"], cfgs_of(B), sub_map)
+                ownB = drop_cover(ownB, B)
+                # known cause of a changed stream: the "not covered" note emitted for a [deprecated] warning on a line whose
+                # ignore lists other codes trips an active ErrorWatcher (has_new_errors), the checker takes its failure path
+                dep_cover = any(i["code"] and i["code"]["name"] == "deprecated"
+                                and any(l in ann and ann[l] and not codes_match(ann[l], i) for l in i["span"])
+                                for i in B["stream"] if i["file"] == "main")
                 res["problems"].append({
+                    "deprecated_cover": dep_cover,
                     "kind": "inexact-own-stream" if (repB != ownB or genB != owngB) else "stream-depends-on-ignore",
                     "label": kind, "ann": {str(k): v for k, v in ann.items()}, "diff": diff_maps(repB, expB),
                     "gen": [genB, expgB], "program": textB[:3000]})
@@ -593,12 +623,26 @@ def worker_case(rec: Recorder, job: dict, exit_obj: Any, sub_map: dict[str, list
             check_exit(B, "disable " + x)
             repB, genB = actual_maps(B)
             ownB, owngB = expected_maps(B, B["stream"], cfgs_of(B), sub_map)
+            repB, ownB = drop_cover(repB, B), drop_cover(ownB, B)
             res["kinds"]["disable"] = res["kinds"].get("disable", 0) + 1
             if repB != ownB or genB != owngB:
                 res["problems"].append({"kind": "inexact-own-stream", "label": "disable " + x, "diff": diff_maps(repB, ownB)})
                 continue
 
+            codeof = {(f, canon(i)): i["code"] for f, infos in A["maps"].items() for i in infos if i["code"]}
+
             def still_enabled(f: str, c: tuple) -> bool:
+                # two ErrorCode objects may share a name (CALL_ARG / CALL_ARG_MISC, the latter a sub-code of misc):
+                # decide with the code record the info really carried
+                g = B["gen"].get(f)
+                cd = codeof.get((f, c))
+                if c[4] or cd is None:
+                    return True
+                if g is None:
+                    return not (cd["name"] == x or cd["sub"] == x)
+                return code_enabled(cd, set(g["dis"]), set(g["en"]))
+
+            def still_enabled_by_name(f: str, c: tuple) -> bool:
                 # options.process_error_codes: "Enabling an error code always overrides disabling" (per module, too):
                 # decide with the options the module really had in run B
                 g = B["gen"].get(f)
@@ -631,6 +675,7 @@ def worker_case(rec: Recorder, job: dict, exit_obj: Any, sub_map: dict[str, list
             check_exit(B, "enable " + y)
             repB, genB = actual_maps(B)
             ownB, owngB = expected_maps(B, B["stream"], cfgs_of(B), sub_map)
+            repB, ownB = drop_cover(repB, B), drop_cover(ownB, B)
             res["kinds"]["enable"] = res["kinds"].get("enable", 0) + 1
             if repB != ownB or genB != owngB:
                 res["problems"].append({"kind": "inexact-own-stream", "label": "enable " + y, "diff": diff_maps(repB, ownB)})
@@ -654,11 +699,13 @@ CODES: dict[str, dict] = {}
 
 
 def diff_maps(actual: dict, expected: dict) -> dict:
+    from collections import Counter
     d = {}
     for f in sorted(set(actual) | set(expected)):
-        a, e = actual.get(f, []), expected.get(f, [])
+        a, e = Counter(map(tuple, actual.get(f, []))), Counter(map(tuple, expected.get(f, [])))
         if a != e:
-            d[f] = {"only_actual": [x for x in a if x not in e][:8], "only_expected": [x for x in e if x not in a][:8]}
+            d[f] = {"only_actual": [list(x) + [n] for x, n in (a - e).items()][:8],
+                    "only_expected": [list(x) + [n] for x, n in (e - a).items()][:8]}
     return d
 
 
@@ -702,6 +749,9 @@ def worker_api_run(job: dict) -> dict:
 
 def worker_main() -> None:
     jobs = json.load(sys.stdin)
+    result_out = os.fdopen(os.dup(1), "w")     # results go here; anything mypy prints on fd 1 is sent to stderr
+    os.dup2(2, 1)
+    sys.stdout = sys.stderr
     repo = os.environ["PYTHONPATH"].split(os.pathsep)[0]
     import mypy.errorcodes as codes
     sub_map = {k: sorted(v) for k, v in codes.sub_code_map.items()}
@@ -717,7 +767,8 @@ def worker_main() -> None:
             out.append(worker_case(rec, job, exit_obj, sub_map))
         else:
             out.append(worker_api_run(job))
-    json.dump(out, sys.stdout)
+    json.dump(out, result_out)
+    result_out.flush()
 
 
 # ======================================================================================
@@ -799,7 +850,7 @@ def corpus(repo: str) -> list[dict]:
             flags = fl.group(1).split() if fl else []
             if any(f.startswith(("--config-file", "--shadow-file", "--package", "-p", "-m", "--num-workers", "--junit", "--output", "-O",
                                  "--cache", "--incremental", "--sqlite", "--install-types", "--non-interactive", "--pretty",
-                                 "--show-error-context", "--show-error-code-links", "--many-errors", "--ignore-errors")) for f in flags):
+                                 "--show-error-context", "--show-error-code-links", "--many-errors", "--soft-error-limit", "--ignore-errors", "--verbose", "-v", "--dump")) for f in flags):
                 continue
             jobs.append({"type": "case", "name": fn + "::" + name, "main": main, "files": files, "flags": flags,
                          "pyver": list(pyver) if pyver else None})
@@ -1182,6 +1233,11 @@ def stage_S(ctx: Any, verdict: str) -> None:
                               "--disable-error-code X does not remove an [X] diagnostic that is reported before the file's ignore "
                               "comments are registered (e.g. inline `# mypy:` configuration errors): add_error_info only consults "
                               "is_ignored_error `if file in self.ignored_lines`", {"case": r["name"], **p})
+            elif p["kind"] == "stream-depends-on-ignore" and p.get("deprecated_cover"):
+                ctx.violation("non-matching-ignore-adds-diagnostics:deprecated-not-covered-note-trips-error-watcher",
+                              "a `# type: ignore[other-code]` comment on a line with a [deprecated] warning makes mypy report additional, bogus "
+                              "diagnostics (e.g. 'Unsupported operand types for +'): the 'not covered' note emitted inside add_error_info is "
+                              "seen by the active ErrorWatcher as a new error", {"case": r["name"], **p})
             elif p["kind"] == "crash":
                 ctx.log(f"note: mypy raised on a variant of {r['name']} ({p['label']}): {p['exc'][:120]} (not this property)")
             else:
